@@ -62,7 +62,7 @@ theorem ite_map (ρ : Nat → Nat) {c : Prop} [Decidable c] {x y x' y' : Res} (h
 
 /-- the recursive calls correspond -/
 def RecRel (ρ : Nat → Nat) (rec rec' : Rec) : Prop :=
-  ∀ asm st a b, rec' (mapAsm ρ asm) (st.map ρ) (ρ a) (ρ b) = mapRes ρ (rec asm st a b)
+  ∀ asm (st : Stk) a b, rec' (mapAsm ρ asm) (st.map ρ) (ρ a) (ρ b) = mapRes ρ (rec asm st a b)
 
 section
 variable {ρ τ : Nat → Nat} {T T' : Table} (E : Embeds ρ τ T T') {rec rec' : Rec} (hrec : RecRel ρ rec rec')
@@ -100,46 +100,79 @@ theorem resolveCycle_map (st : List Nat) (d : Nat) :
   · rfl
   · simp [List.getElem?_map]
 
+theorem map_inj_list : ∀ (l1 l2 : List Nat), l1.map ρ = l2.map ρ → l1 = l2 := by
+  intro l1
+  induction l1 with
+  | nil => intro l2 h; cases l2 with | nil => rfl | cons _ _ => simp at h
+  | cons x xs ih =>
+    intro l2 h
+    cases l2 with
+    | nil => simp at h
+    | cons y ys =>
+      simp only [List.map_cons, List.cons.injEq] at h
+      rw [E.injTy _ _ h.1, ih ys h.2]
+
+theorem sameContext_map (vr : Variant) (mode : Mode) (st : Stk) :
+    sameContext vr mode (st.map ρ) = sameContext vr mode st := by
+  unfold sameContext
+  congr 1
+  apply Bool.eq_iff_iff.mpr
+  rw [decide_eq_true_iff, decide_eq_true_iff]
+  exact ⟨fun h => map_inj_list E _ _ h, fun h => congrArg (List.map ρ) h⟩
+
+theorem pushL_map (st : Stk) (a : Nat) : (st.map ρ).pushL (ρ a) = (st.pushL a).map ρ := by
+  simp only [Stk.pushL, Stk.map, pushStack_map E]
+
+theorem pushR_map (st : Stk) (b : Nat) : (st.map ρ).pushR (ρ b) = (st.pushR b).map ρ := by
+  simp only [Stk.pushR, Stk.map, pushStack_map E]
+
+omit E in
+theorem swap_map (st : Stk) : (st.map ρ).swap = (st.swap).map ρ := rfl
+
 include hrec
 
-theorem cycleLeft_map (asm : Asm) (st : List Nat) (d b : Nat) :
-    cycleLeft rec' (mapAsm ρ asm) (st.map ρ) d (ρ b) = mapRes ρ (cycleLeft rec asm st d b) := by
+theorem cycleLeft_map (vr : Variant) (asm : Asm) (st : Stk) (d b : Nat) :
+    cycleLeft vr rec' (mapAsm ρ asm) (st.map ρ) d (ρ b) = mapRes ρ (cycleLeft vr rec asm st d b) := by
   unfold cycleLeft
-  rw [resolveCycle_map E]
-  cases resolveCycle st d with
+  have : (if vr.leftCycleOnRightStack then (st.map ρ).r else (st.map ρ).l) =
+      (if vr.leftCycleOnRightStack then st.r else st.l).map ρ := by split <;> rfl
+  rw [this, resolveCycle_map E]
+  cases resolveCycle (if vr.leftCycleOnRightStack then st.r else st.l) d with
   | none => rfl
   | some sid => exact hrec _ _ _ _
 
-theorem cycleRight_map (asm : Asm) (st : List Nat) (a d : Nat) :
+theorem cycleRight_map (asm : Asm) (st : Stk) (a d : Nat) :
     cycleRight rec' (mapAsm ρ asm) (st.map ρ) (ρ a) d = mapRes ρ (cycleRight rec asm st a d) := by
   unfold cycleRight
-  rw [resolveCycle_map E]
-  cases resolveCycle st d with
+  have : (st.map ρ).r = st.r.map ρ := rfl
+  rw [this, resolveCycle_map E]
+  cases resolveCycle st.r d with
   | none => rfl
   | some sid => exact hrec _ _ _ _
 
-theorem unionLeft_map (vr : Variant) (mode : Mode) (asm : Asm) (st : List Nat) (a b : Nat)
+theorem unionLeft_map (vr : Variant) (mode : Mode) (asm : Asm) (st : Stk) (a b : Nat)
     (vs : List Nat) :
     unionLeft vr mode rec' (mapAsm ρ asm) (st.map ρ) (ρ a) (ρ b) (vs.map ρ) =
       mapRes ρ (unionLeft vr mode rec asm st a b vs) := by
   unfold unionLeft
   rw [← restoreOnFail_map]
   congr 1
+  rw [pushL_map E]
   cases mode
-  · exact allS_map ρ (fun s v => hrec s st v b) vs ((a, b) :: asm)
-  · exact anyS_map ρ (fun s v => hrec s st v b) vs ((a, b) :: asm)
+  · exact allS_map ρ (fun s v => hrec s (st.pushL a) v b) vs ((a, b) :: asm)
+  · exact anyS_map ρ (fun s v => hrec s (st.pushL a) v b) vs ((a, b) :: asm)
 
-theorem unionRight_map (vr : Variant) (asm : Asm) (st : List Nat) (a b : Nat) (vs : List Nat) :
+theorem unionRight_map (vr : Variant) (asm : Asm) (st : Stk) (a b : Nat) (vs : List Nat) :
     unionRight vr rec' (mapAsm ρ asm) (st.map ρ) (ρ a) (ρ b) (vs.map ρ) =
       mapRes ρ (unionRight vr rec asm st a b vs) := by
   unfold unionRight
-  rw [← restoreOnFail_map, pushStack_map E]
+  rw [← restoreOnFail_map, pushR_map E]
   congr 1
-  exact anyS_map ρ (fun s v => hrec s (pushStack st b) a v) vs ((a, b) :: asm)
+  exact anyS_map ρ (fun s v => hrec s (st.pushR b) a v) vs ((a, b) :: asm)
 
 def mapF (ρ : Nat → Nat) {κ : Type} (f : κ × Nat) : κ × Nat := (f.1, ρ f.2)
 
-theorem tupleFields_map (st : List Nat) (f1 f2 : List (Option Name × Nat)) (asm : Asm) :
+theorem tupleFields_map (st : Stk) (f1 f2 : List (Option Name × Nat)) (asm : Asm) :
     tupleFields rec' (st.map ρ) ((f1.map (mapF ρ)).zip (f2.map (mapF ρ))) (mapAsm ρ asm) =
       mapRes ρ (tupleFields rec st (f1.zip f2) asm) := by
   unfold tupleFields
@@ -148,13 +181,15 @@ theorem tupleFields_map (st : List Nat) (f1 f2 : List (Option Name × Nat)) (asm
   simp only [Prod.map, mapF]
   exact ite_map ρ (hrec _ _ _ _) rfl
 
-theorem tupleTuple_map (asm : Asm) (st : List Nat) (i1 i2 : Nat) :
-    tupleTuple T' rec' (mapAsm ρ asm) (st.map ρ) (τ i1) (τ i2) =
-      mapRes ρ (tupleTuple T rec asm st i1 i2) := by
+theorem tupleTuple_map (vr : Variant) (mode : Mode) (asm : Asm) (st : Stk) (i1 i2 : Nat) :
+    tupleTuple vr T' mode rec' (mapAsm ρ asm) (st.map ρ) (τ i1) (τ i2) =
+      mapRes ρ (tupleTuple vr T mode rec asm st i1 i2) := by
   unfold tupleTuple
-  by_cases h : i1 = i2
-  · subst h; simp [mapRes]
-  · have : τ i1 ≠ τ i2 := fun hh => h (E.injTu _ _ hh)
+  rw [sameContext_map E]
+  by_cases h : i1 = i2 ∧ sameContext vr mode st = true
+  · have h' : τ i1 = τ i2 ∧ sameContext vr mode st = true := ⟨by rw [h.1], h.2⟩
+    simp [h, h', mapRes]
+  · have this : ¬ (τ i1 = τ i2 ∧ sameContext vr mode st = true) := fun hh => h ⟨E.injTu _ _ hh.1, hh.2⟩
     simp only [h, this, if_false, E.tuples]
     cases T.tuples[i1]? with
     | none => rfl
@@ -167,7 +202,7 @@ theorem tupleTuple_map (asm : Asm) (st : List Nat) (i1 i2 : Nat) :
         · exact tupleFields_map E hrec st info1.fields info2.fields asm
         · rfl
 
-theorem tuplePartFields_map (st : List Nat) (cfs : List (Option Name × Nat)) (pfs : List (Name × Nat))
+theorem tuplePartFields_map (st : Stk) (cfs : List (Option Name × Nat)) (pfs : List (Name × Nat))
     (asm : Asm) :
     tuplePartFields rec' (st.map ρ) (cfs.map (mapF ρ)) (pfs.map (mapF ρ)) (mapAsm ρ asm) =
       mapRes ρ (tuplePartFields rec st cfs pfs asm) := by
@@ -177,7 +212,7 @@ theorem tuplePartFields_map (st : List Nat) (cfs : List (Option Name × Nat)) (p
   simp only [mapF]
   exact ite_map ρ (hrec _ _ _ _) rfl
 
-theorem tuplePart_map (asm : Asm) (st : List Nat) (c : Nat) (pn : Option Name)
+theorem tuplePart_map (asm : Asm) (st : Stk) (c : Nat) (pn : Option Name)
     (pfs : List (Name × Nat)) :
     tuplePart T' rec' (mapAsm ρ asm) (st.map ρ) (τ c) pn (pfs.map (mapF ρ)) =
       mapRes ρ (tuplePart T rec asm st c pn pfs) := by
@@ -191,7 +226,7 @@ theorem tuplePart_map (asm : Asm) (st : List Nat) (c : Nat) (pn : Option Name)
     · rfl
     · exact tuplePartFields_map E hrec st ci.fields pfs asm
 
-theorem partTupleFields_map (st : List Nat) (cfs : List (Option Name × Nat)) (pfs : List (Name × Nat))
+theorem partTupleFields_map (st : Stk) (cfs : List (Option Name × Nat)) (pfs : List (Name × Nat))
     (asm : Asm) :
     partTupleFields rec' (st.map ρ) (cfs.map (mapF ρ)) (pfs.map (mapF ρ)) (mapAsm ρ asm) =
       mapRes ρ (partTupleFields rec st cfs pfs asm) := by
@@ -201,7 +236,7 @@ theorem partTupleFields_map (st : List Nat) (cfs : List (Option Name × Nat)) (p
   simp only [mapF]
   exact ite_map ρ (hrec _ _ _ _) rfl
 
-theorem partTuple_map (vr : Variant) (mode : Mode) (asm : Asm) (st : List Nat) (pn : Option Name)
+theorem partTuple_map (vr : Variant) (mode : Mode) (asm : Asm) (st : Stk) (pn : Option Name)
     (pfs : List (Name × Nat)) (c : Nat) :
     partTuple vr T' mode rec' (mapAsm ρ asm) (st.map ρ) pn (pfs.map (mapF ρ)) (τ c) =
       mapRes ρ (partTuple vr T mode rec asm st pn pfs c) := by
@@ -218,7 +253,7 @@ theorem partTuple_map (vr : Variant) (mode : Mode) (asm : Asm) (st : List Nat) (
       · rfl
       · exact partTupleFields_map E hrec st ci.fields pfs asm
 
-theorem partPartFields_map (vr : Variant) (mode : Mode) (st : List Nat) (fs1 fs2 : List (Name × Nat))
+theorem partPartFields_map (vr : Variant) (mode : Mode) (st : Stk) (fs1 fs2 : List (Name × Nat))
     (asm : Asm) :
     partPartFields vr mode rec' (st.map ρ) (fs1.map (mapF ρ)) (fs2.map (mapF ρ)) (mapAsm ρ asm) =
       mapRes ρ (partPartFields vr mode rec st fs1 fs2 asm) := by
@@ -236,7 +271,7 @@ theorem partPartFields_map (vr : Variant) (mode : Mode) (st : List Nat) (fs1 fs2
     | none => cases mode <;> rfl
     | some f1 => exact hrec _ _ _ _
 
-theorem partPart_map (vr : Variant) (mode : Mode) (asm : Asm) (st : List Nat) (n1 : Option Name)
+theorem partPart_map (vr : Variant) (mode : Mode) (asm : Asm) (st : Stk) (n1 : Option Name)
     (fs1 : List (Name × Nat)) (n2 : Option Name) (fs2 : List (Name × Nat)) :
     partPart vr mode rec' (mapAsm ρ asm) (st.map ρ) n1 (fs1.map (mapF ρ)) n2 (fs2.map (mapF ρ)) =
       mapRes ρ (partPart vr mode rec asm st n1 fs1 n2 fs2) := by
@@ -245,7 +280,7 @@ theorem partPart_map (vr : Variant) (mode : Mode) (asm : Asm) (st : List Nat) (n
   · rfl
   · exact partPartFields_map E hrec vr mode st fs1 fs2 asm
 
-theorem optRel_map (asm : Asm) (st : List Nat) (x y : Option Nat) :
+theorem optRel_map (asm : Asm) (st : Stk) (x y : Option Nat) :
     optRel rec' (mapAsm ρ asm) (st.map ρ) (x.map ρ) (y.map ρ) = mapRes ρ (optRel rec asm st x y) := by
   cases x <;> cases y <;> simp only [optRel, Option.map_some, Option.map_none]
   · rfl
@@ -253,7 +288,7 @@ theorem optRel_map (asm : Asm) (st : List Nat) (x y : Option Nat) :
   · rfl
   · exact hrec _ _ _ _
 
-theorem processProcess_map (asm : Asm) (st : List Nat) (s1 r1 s2 r2 : Option Nat) :
+theorem processProcess_map (asm : Asm) (st : Stk) (s1 r1 s2 r2 : Option Nat) :
     processProcess rec' (mapAsm ρ asm) (st.map ρ) (s1.map ρ) (r1.map ρ) (s2.map ρ) (r2.map ρ) =
       mapRes ρ (processProcess rec asm st s1 r1 s2 r2) := by
   unfold processProcess
@@ -268,12 +303,19 @@ theorem processProcess_map (asm : Asm) (st : List Nat) (s1 r1 s2 r2 : Option Nat
     | none => rfl
     | some p2 => rfl
 
-theorem callableCallable_map (asm : Asm) (st : List Nat) (b p1 r1 c1 p2 r2 c2 : Nat) :
-    callableCallable rec' (mapAsm ρ asm) (st.map ρ) (ρ b) (ρ p1) (ρ r1) (ρ c1) (ρ p2) (ρ r2) (ρ c2) =
-      mapRes ρ (callableCallable rec asm st b p1 r1 c1 p2 r2 c2) := by
+theorem callableCallable_map (vr : Variant) (asm : Asm) (st : Stk) (a b p1 r1 c1 p2 r2 c2 : Nat) :
+    callableCallable vr rec' (mapAsm ρ asm) (st.map ρ) (ρ a) (ρ b) (ρ p1) (ρ r1) (ρ c1) (ρ p2) (ρ r2) (ρ c2) =
+      mapRes ρ (callableCallable vr rec asm st a b p1 r1 c1 p2 r2 c2) := by
   unfold callableCallable
-  rw [pushStack_map E, hrec]
-  cases rec asm (pushStack st b) p2 p1 with
+  simp only [pushR_map E, pushL_map E]
+  have hstc : (if vr.leftCycleOnRightStack then ((st.pushR b).pushL a).map ρ
+      else (((st.pushR b).pushL a).map ρ).swap) =
+      (if vr.leftCycleOnRightStack then (st.pushR b).pushL a else ((st.pushR b).pushL a).swap).map ρ := by
+    split <;> rfl
+  rw [hstc]
+  generalize (if vr.leftCycleOnRightStack then (st.pushR b).pushL a else ((st.pushR b).pushL a).swap) = stc
+  rw [hrec]
+  cases rec asm stc p2 p1 with
   | none => rfl
   | some q1 =>
     obtain ⟨ok1, a1⟩ := q1
@@ -282,7 +324,7 @@ theorem callableCallable_map (asm : Asm) (st : List Nat) (b p1 r1 c1 p2 r2 c2 : 
     | true =>
       simp only [mapRes_some]
       rw [hrec]
-      cases rec a1 (pushStack st b) r1 r2 with
+      cases rec a1 ((st.pushR b).pushL a) r1 r2 with
       | none => rfl
       | some q2 =>
         obtain ⟨ok2, a2⟩ := q2
@@ -291,7 +333,7 @@ theorem callableCallable_map (asm : Asm) (st : List Nat) (b p1 r1 c1 p2 r2 c2 : 
         | true => simp only [mapRes_some]; exact hrec _ _ _ _
 
 /-- one unfolding commutes with the renaming -/
-theorem relStep_map (vr : Variant) (mode : Mode) (asm : Asm) (st : List Nat) (a b : Nat) (ta tb : Ty) :
+theorem relStep_map (vr : Variant) (mode : Mode) (asm : Asm) (st : Stk) (a b : Nat) (ta tb : Ty) :
     relStep vr T' mode rec' (mapAsm ρ asm) (st.map ρ) (ρ a) (ρ b) (ta.rename ρ τ) (tb.rename ρ τ) =
       mapRes ρ (relStep vr T mode rec asm st a b ta tb) := by
   have hmapF : ∀ (fs : List (Name × Nat)), fs.map (fun f => (f.1, ρ f.2)) = fs.map (mapF ρ) := fun _ => rfl
@@ -309,22 +351,22 @@ theorem relStep_map (vr : Variant) (mode : Mode) (asm : Asm) (st : List Nat) (a 
     all_goals first
       | exact absurd ⟨_, rfl⟩ hu
       | rfl
-      | exact cycleLeft_map E hrec asm st _ b
+      | exact cycleLeft_map E hrec vr asm st _ b
       | exact cycleRight_map E hrec asm st a _
       | exact unionRight_map E hrec vr asm st a b _
-      | exact tupleTuple_map E hrec asm st _ _
+      | exact tupleTuple_map E hrec vr mode asm st _ _
       | exact tuplePart_map E hrec asm st _ _ _
       | exact partPart_map E hrec vr mode asm st _ _ _ _
       | exact partTuple_map E hrec vr mode asm st _ _ _
       | exact processProcess_map E hrec asm st _ _ _ _
-      | exact callableCallable_map E hrec asm st b _ _ _ _ _ _
+      | exact callableCallable_map E hrec vr asm st a b _ _ _ _ _ _
       | (split
-         · exact callableCallable_map E hrec asm st b _ _ _ _ _ _
+         · exact callableCallable_map E hrec vr asm st a b _ _ _ _ _ _
          · rw [← restoreOnFail_map]
-           exact congrArg _ (callableCallable_map E hrec ((a, b) :: asm) st b _ _ _ _ _ _))
+           exact congrArg _ (callableCallable_map E hrec vr ((a, b) :: asm) st a b _ _ _ _ _ _))
       | (split
          · rfl
-         · exact cycleLeft_map E hrec asm st _ b)
+         · exact cycleLeft_map E hrec vr asm st _ b)
       | (simp only [mapRes, Option.map_some])
 
 end
@@ -338,9 +380,11 @@ theorem checkRelV_map {ρ τ : Nat → Nat} {T T' : Table} (E : Embeds ρ τ T T
   | succ n ih =>
     intro asm st a b
     unfold checkRelV
-    by_cases hab : a = b
-    · subst hab; simp [mapRes]
-    · have hne : ρ a ≠ ρ b := fun hh => hab (E.injTy _ _ hh)
+    rw [sameContext_map E]
+    by_cases hab : a = b ∧ sameContext vr mode st = true
+    · have hab' : ρ a = ρ b ∧ sameContext vr mode st = true := ⟨by rw [hab.1], hab.2⟩
+      simp [hab, hab', mapRes]
+    · have hne : ¬ (ρ a = ρ b ∧ sameContext vr mode st = true) := fun hh => hab ⟨E.injTy _ _ hh.1, hh.2⟩
       simp only [hab, hne, if_false, asm_contains_map E]
       split
       · rfl
